@@ -9,8 +9,11 @@ from harness.common import bud
 from harness.props import c05
 
 PROP = "C14"
-MODULES = ["CassisModel.Properties.C14", "CassisModel.Properties.C15"]
+MODULES = ["CassisModel.Properties.C14", "CassisModel.Properties.C15", "CassisModel.Properties.C14Json"]
 THEOREMS = [
+    "Cassis.Json.saveJson_idempotent",
+    "Cassis.Json.saveJson_idempotent_second",
+    "Cassis.Json.saveJson_heap_frame",
     "Cassis.Xmi.sortById_perm_invariant",
     "Cassis.Xmi.sortInts_perm_invariant",
     "Cassis.Json.sortByName_perm_invariant",
